@@ -1682,12 +1682,15 @@ class SoftAbsRegularizedPositiveDefiniteMatrix(
         num_j_mtx = self.eigval[:, None] - self.eigval[None, :]
         den_j_mtx = self.unreg_eigval[:, None] - self.unreg_eigval[None, :]
         # Divided difference tends to derivative for coincident eigenvalues (which
-        # includes all diagonal terms)
-        coincident = den_j_mtx == 0
-        grad_softabs = self.grad_softabs(self.unreg_eigval)
-        num_j_mtx[coincident] = np.broadcast_to(grad_softabs, num_j_mtx.shape)[
-            coincident
-        ]
+        # includes all diagonal terms). Numerically computed repeated eigenvalues
+        # typically differ by rounding error for which divided difference is
+        # meaningless therefore use derivative at midpoint for all (nearly) coincident
+        # pairs, for which error in this approximation is below rounding error level
+        sum_j_mtx = self.unreg_eigval[:, None] + self.unreg_eigval[None, :]
+        coincident = abs(den_j_mtx) <= np.finfo(den_j_mtx.dtype).eps ** 0.5 * (
+            np.maximum(abs(sum_j_mtx), 1)
+        )
+        num_j_mtx[coincident] = self.grad_softabs(sum_j_mtx[coincident] / 2)
         den_j_mtx[coincident] = 1
         j_mtx = num_j_mtx / den_j_mtx
         e_vct = (self.eigvec.T @ vector) / self.eigval
